@@ -381,3 +381,87 @@ def run_gen(rng, tier):
         req = rng.choice(["o1", "o2"]) if multi and rng.random() < 0.7 else (out if rng.random() < 0.9 else "nope")
         yield {"self": _RunPipeline(o2f, pick("default")), "output_name": req, "flat_scope_kwargs": pick("kwarg"),
                "all_results": all_results, "full_output": rng.random() < 0.5, "used_parameters": set()}
+
+
+# ---- get_result_from_cache: a resident entry is used instead of executing (C09) -----------------------------------------------
+from types import SimpleNamespace as _NS  # noqa: E402
+
+from pyvc.types import TTuple  # noqa: E402
+
+from .misc import CacheKey  # noqa: E402
+
+FC = "pipefunc/_pipeline/_cache.py"
+CacheV = TRec("CacheV", {"cid": TObj})
+OptKey = TOpt(CacheKey)
+
+cache_contains = Contract(f"{FC}::CacheV.__contains__", params={"self": CacheV, "key": CacheKey}, returns=TBool, trusted=True,
+                          pure=True, note="membership of a key in the cache (the containers' own contracts are C14)")
+cache_get = Contract(f"{FC}::CacheV.get", params={"self": CacheV, "key": CacheKey}, returns=TObj, trusted=True, pure=True,
+                     note="the stored value; the cache is only read here")
+
+
+class _DictCache:
+    """A cache object for the bounded rung (what get_result_from_cache uses of it)."""
+
+    def __init__(self, d):
+        self.d, self.cid = dict(d), "cache"
+
+    def __contains__(self, k):
+        return k in self.d
+
+    def get(self, k):
+        return self.d.get(k)
+
+
+def _hit(S, a):
+    if S.symbolic:
+        return S.and_(S.not_(S.is_none(a.cache_key)), lambda: S.uf("fn:CacheV.__contains__", TBool, a.cache, S.some(a.cache_key)))
+    return a.cache_key is not None and a.cache_key in a.cache
+
+
+def _cached_value(S, a):
+    return S.uf("fn:CacheV.get", TObj, a.cache, S.some(a.cache_key)) if S.symbolic else a.cache.get(a.cache_key)
+
+
+def _grc_ensures(S, a, r, post):
+    ret_now, from_cache = (r.t[0].t, r.t[1].t) if S.symbolic and hasattr(r, "t") else (r[0], r[1])
+    hit = _hit(S, a)
+    entered = _uar_ensures(S, _NS(func=a.func, r=_cached_value(S, a) if (S.symbolic or (a.cache_key is not None and a.cache_key in a.cache)) else None,
+                                  output_name=a.output_name, all_results=a.all_results, lazy=a.lazy), None,
+                           _NS(all_results=post.all_results))
+    none_key = S.none_of(TOpt(TStr)) if S.symbolic else None
+    out = {
+        "hit <=> the key is not None and resident": from_cache == hit,
+        "returns at once exactly for a hit without full_output": ret_now == S.and_(hit, S.not_(a.full_output)),
+        "miss: nothing is entered or marked": S.implies(S.not_(hit), lambda: S.and_(
+            S.eq(post.all_results, a.all_results) if S.symbolic else post.all_results == a.all_results,
+            S.eq(post.used_parameters, a.used_parameters) if S.symbolic else post.used_parameters == a.used_parameters)),
+        "hit without full_output: the None mark is added (result came from the cache)": S.implies(
+            S.and_(hit, S.not_(a.full_output)), lambda: S.in_set(post.used_parameters, none_key)),
+    }
+    for k_, v_ in entered.items():
+        out["hit: the cached value is entered like a computed one - " + k_] = S.implies(hit, lambda v_=v_: v_)
+    return out
+
+
+get_result_from_cache = Contract(
+    f"{FC}::get_result_from_cache",
+    params={"func": PipeFuncV, "cache": CacheV, "cache_key": OptKey, "output_name": TOut, "all_results": DRes,
+            "full_output": TBool, "used_parameters": UsedT, "lazy": TBool},
+    defaults={"lazy": False}, returns=TTuple([TBool, TBool]), modifies=("all_results", "used_parameters"), pure=False,
+    ensures=_grc_ensures,
+)
+ALL += [cache_contains, cache_get, get_result_from_cache]
+
+
+def grc_gen(rng, tier):
+    for _ in range(500 if tier == "quick" else 5000):
+        multi = rng.random() < 0.5
+        out = tuple(rng.sample(["a", "b", "c"], 2)) if multi else rng.choice(["a", "b"])
+        req = rng.choice(list(out)) if multi and rng.random() < 0.7 else out
+        key = None if rng.random() < 0.2 else (out, (("x", rng.randint(0, 2)),))
+        store = {(out, (("x", v),)): f"cached{v}" for v in range(3) if rng.random() < 0.5}
+        pre = {k: f"old_{k}" for k in rng.sample(["a", "b", "c", "x"], rng.randint(0, 2))}
+        yield {"func": _PF(out, tagging_picker), "cache": _DictCache(store), "cache_key": key, "output_name": req,
+               "all_results": pre, "full_output": rng.random() < 0.5, "used_parameters": set(rng.sample(["x", "y"], rng.randint(0, 2))),
+               "lazy": False}
